@@ -255,14 +255,117 @@ def gen_gridsweep(r, tier):
 # ---------------------------------------------------------------------------
 def gen_params(r):
     from .sysgen import PROB_TRIPLES
-    tps = r.choice([1, 2, 3, 5, 7, 10, 10, 16, 30, 100, 250, 1000])
+    tps = r.choice([1, 2, 3, 5, 7, 10, 10, 16, 30, 100, 250, 1000, 1000, 10 ** 4, 10 ** 5])
     i, q, b = r.choice(PROB_TRIPLES)
     nticks = r.randint(30, 600)
-    return {"ticks_per_second": tps, "duration": float(F(nticks, tps)),
+    dur = F(nticks, tps)
+    if r.random() < 0.15:
+        dur += F(r.choice([1, 5, 9]), 10 * tps)      # not a whole number of ticks
+    return {"ticks_per_second": tps, "duration": float(dur),
             "waiting_seconds_mean": float(F(r.choice([1, 2, 3, 5, 8, 13, 40]), tps)) * r.choice([1, 1, 2.5]),
             "num_pipelines": r.choice([1, 2, 4]), "num_operators": r.choice([1, 3, 5]), "num_segs": 1,
             "cpu_io_ratio": r.choice([0, 0.5, 1]), "random_seed": r.randint(0, 10 ** 6),
             "interactive_prob": i, "query_prob": q, "batch_prob": b}
+
+
+def _compare_roundtrip(produced, replayed, tps, max_ticks):
+    if True:
+        known = None
+        for j, pr in enumerate(produced):
+            if j >= len(replayed):
+                if pr[0] == max_ticks - 1:
+                    known = known or Violation("C13.roundtrip_tick", {
+                        "pipeline_index": j, "produced_tick": pr[0], "replayed_tick": "never (run ended)", "tps": tps,
+                        "late_by": 1, "float_quotient_exceeds_tick": True}, pr[0])
+                    continue
+                raise Violation("C13.roundtrip_missing", {"pipeline_index": j, "produced_tick": pr[0], "tps": tps,
+                                                          "produced": len(produced), "replayed": len(replayed)}, pr[0])
+            rp = replayed[j]
+            if rp[1:] != pr[1:]:
+                raise Violation("C13.roundtrip_pipeline", {"pipeline_index": j, "produced": list(pr), "replayed": list(rp)}, pr[0])
+            if rp[0] != pr[0]:
+                arrival = repr(pr[0] * (1.0 / tps))
+                if rp[0] == pr[0] + 1 and float_quotient_exceeds(arrival, tps, pr[0]):
+                    known = known or Violation("C13.roundtrip_tick", {
+                        "pipeline_index": j, "produced_tick": pr[0], "replayed_tick": rp[0], "tps": tps,
+                        "arrival_written": arrival, "late_by": 1, "float_quotient_exceeds_tick": True}, pr[0])
+                    continue
+                raise Violation("C13.roundtrip_tick", {"pipeline_index": j, "produced_tick": pr[0], "replayed_tick": rp[0],
+                                                       "tps": tps, "late_by": rp[0] - pr[0], "float_quotient_exceeds_tick": False}, pr[0])
+        if len(replayed) > len(produced):
+            raise Violation("C13.roundtrip_extra", {"produced": len(produced), "replayed": len(replayed)}, None)
+        if known is not None:
+            raise known
+
+
+_cli_rec = {"arr": None}
+
+
+def ensure_cli_recorder():
+    """a do-nothing scheduler registered through the public decorators; it records what arrives in which tick"""
+    import_repo()
+    from eudoxia.scheduler.decorators import register_scheduler, register_scheduler_init, SCHEDULING_ALGOS
+    if "verifrec" in SCHEDULING_ALGOS:
+        return
+
+    @register_scheduler_init(key="verifrec")
+    def rinit(s):
+        s.vt = -1
+
+    @register_scheduler(key="verifrec")
+    def rstep(s, results, pipelines):
+        s.vt += 1
+        if _cli_rec["arr"] is not None:
+            for p in pipelines:
+                _cli_rec["arr"].append((s.vt, p.priority.name, len(p.values)))
+        return [], []
+
+
+def run_cli_roundtrip(scn):
+    """the statement's last sentence through the command line functions themselves: `run params` against
+    `gentrace params trace` + `run params -w trace` (params in a TOML file, trace in a real file)"""
+    import_repo()
+    import contextlib
+    import os
+    import shutil
+    import tempfile
+    from eudoxia.__main__ import run_command, gentrace_command
+    ensure_cli_recorder()
+    out = {"violation": None, "discard": None, "faults": {}, "probes": {}, "ticks": 0, "nontrivial": True}
+    params = dict(scn["params"], scheduler_algo="verifrec")
+    tps = params["ticks_per_second"]
+    max_ticks = int(params["duration"] * tps)
+    d = tempfile.mkdtemp(prefix="verif_c13_")
+    try:
+        pf, tf = os.path.join(d, "params.toml"), os.path.join(d, "trace.csv")
+        with open(pf, "w") as f:
+            for k, v in params.items():
+                f.write("%s = %s\n" % (k, ('"%s"' % v) if isinstance(v, str) else repr(v)))
+        sink = io.StringIO()
+        try:
+            with contextlib.redirect_stdout(sink), contextlib.redirect_stderr(sink):
+                _cli_rec["arr"] = produced = []
+                run_command(pf)
+                _cli_rec["arr"] = None
+                gentrace_command(pf, tf)
+                if scn.get("twice"):
+                    gentrace_command(pf, tf, force=True)       # writing the trace again replaces it
+                _cli_rec["arr"] = replayed = []
+                run_command(pf, workload=tf)
+        except (Exception, SystemExit) as e:  # noqa: BLE001
+            raise Violation("C13.raises", {"exc": repr(e)[:200], "tps": tps, "where": "command line round trip"})
+        finally:
+            _cli_rec["arr"] = None
+        out["ticks"] = 2 * max_ticks
+        _compare_roundtrip(produced, replayed, tps, max_ticks)
+        out["probes"] = {"cli_roundtrip_pipelines": len(produced)}
+    except Violation as v:
+        out["violation"] = v.to_json()
+    finally:
+        shutil.rmtree(d, ignore_errors=True)
+    out["sim_s"] = 2 * max_ticks / tps
+    out["sig"] = digest(["cli", scn["params"]])
+    return out
 
 
 def run_roundtrip(scn):
@@ -291,32 +394,7 @@ def run_roundtrip(scn):
             for p in wt.run_one_tick():
                 replayed.append((t, p.priority.name, len(p.values)))
         out["ticks"] = max_ticks
-        known = None
-        for j, pr in enumerate(produced):
-            if j >= len(replayed):
-                if pr[0] == max_ticks - 1:
-                    known = known or Violation("C13.roundtrip_tick", {
-                        "pipeline_index": j, "produced_tick": pr[0], "replayed_tick": "never (run ended)", "tps": tps,
-                        "late_by": 1, "float_quotient_exceeds_tick": True}, pr[0])
-                    continue
-                raise Violation("C13.roundtrip_missing", {"pipeline_index": j, "produced_tick": pr[0], "tps": tps,
-                                                          "produced": len(produced), "replayed": len(replayed)}, pr[0])
-            rp = replayed[j]
-            if rp[1:] != pr[1:]:
-                raise Violation("C13.roundtrip_pipeline", {"pipeline_index": j, "produced": list(pr), "replayed": list(rp)}, pr[0])
-            if rp[0] != pr[0]:
-                arrival = repr(pr[0] * (1.0 / tps))
-                if rp[0] == pr[0] + 1 and float_quotient_exceeds(arrival, tps, pr[0]):
-                    known = known or Violation("C13.roundtrip_tick", {
-                        "pipeline_index": j, "produced_tick": pr[0], "replayed_tick": rp[0], "tps": tps,
-                        "arrival_written": arrival, "late_by": 1, "float_quotient_exceeds_tick": True}, pr[0])
-                    continue
-                raise Violation("C13.roundtrip_tick", {"pipeline_index": j, "produced_tick": pr[0], "replayed_tick": rp[0],
-                                                       "tps": tps, "late_by": rp[0] - pr[0], "float_quotient_exceeds_tick": False}, pr[0])
-        if len(replayed) > len(produced):
-            raise Violation("C13.roundtrip_extra", {"produced": len(produced), "replayed": len(replayed)}, None)
-        if known is not None:
-            raise known
+        _compare_roundtrip(produced, replayed, tps, max_ticks)
         out["probes"] = {"roundtrip_pipelines": len(produced)}
     except Violation as v:
         out["violation"] = v.to_json()
